@@ -153,3 +153,10 @@ Fixpoint ulab_rec (t : ltree) : option Z :=
   end.
 Definition unordered_labeling_cost (c : costs) (t : ltree) : option Z :=
   option_map (Z.mul (c_sloss c)) (ulab_rec t).
+
+(** [labeling_cost] and [SuperReconciliationOutput.cost]; [None] = the assertion on
+    the event kind fails (an invalid node) *)
+Definition labeling_cost (c : costs) (ordered : bool) (t : ltree) : option Z :=
+  if ordered then ordered_labeling_cost c t else unordered_labeling_cost c t.
+Definition total_cost (c : costs) (O : otree) (ordered : bool) (t : ltree) : option ext :=
+  option_map (fun k => ext_add (cost c O (forget t)) (Fin k)) (labeling_cost c ordered t).
